@@ -693,14 +693,26 @@ public:
 
     size_t size = v1.size();
 
+    // shift by the largest exponent that carries a non-zero weight: terms of weight zero contribute nothing,
+    // whatever their exponent, and must not decide the shift
     T M = max(v1);
+    bool weighted = false;
+    for (size_t i = 0; i < size; i++)
+    {
+      if (v2[i] != 0 && (!weighted || v1[i] > M))
+      {
+        M = v1[i];
+        weighted = true;
+      }
+    }
     if (std::isinf(M))
       throw BadNumberException("VectorTools::logSumExp", M);
 
-    T x = v2[0] * std::exp(v1[0] - M);
-    for (size_t i = 1; i < size; i++)
+    T x = 0;
+    for (size_t i = 0; i < size; i++)
     {
-      x += v2[i] * std::exp(v1[i] - M);
+      if (v2[i] != 0)
+        x += v2[i] * std::exp(v1[i] - M);
     }
     return std::log(x) + M;
   }
@@ -753,17 +765,32 @@ public:
 
     size_t size = v1.size();
 
+    // shift by the largest exponent that carries a non-zero weight: terms of weight zero contribute nothing,
+    // whatever their exponent, and must not decide the shift
+    T M = max(v1);
+    bool weighted = false;
+    for (size_t i = 0; i < size; i++)
+    {
+      if (v2[i] != 0 && (!weighted || v1[i] > M))
+      {
+        M = v1[i];
+        weighted = true;
+      }
+    }
+    if (!weighted)
+      return 0;
+
     if (size == 1)
       return v2[0] * std::exp(v1[0]);
 
-    T M = max(v1);
     if (std::isinf(M))
       throw BadNumberException("VectorTools::sumExp", M);
 
-    T x = v2[0] * std::exp(v1[0] - M);
-    for (size_t i = 1; i < size; i++)
+    T x = 0;
+    for (size_t i = 0; i < size; i++)
     {
-      x += v2[i] * std::exp(v1[i] - M);
+      if (v2[i] != 0)
+        x += v2[i] * std::exp(v1[i] - M);
     }
     return x * std::exp(M);
   }
